@@ -602,7 +602,9 @@ class Optimizer(object):
         if hasattr(self, "_last_X") and strategy in ["topk", "boltzmann"]:
             if strategy == "topk":
                 idx = np.argsort(self._last_values)[:n_points]
-                next_samples = self._last_X[idx].tolist()
+                # `_last_X` holds transformed coordinates, the proposals are the
+                # corresponding points of the original space
+                next_samples = [self._last_Xsample[i] for i in idx]
 
                 # to track sampled values and avoid duplicates
                 self.sampled.extend(next_samples)
@@ -652,9 +654,9 @@ class Optimizer(object):
                         trials += 1
                     else:
                         idx.append(new_idx)
-                        self.sampled.append(self._last_X[new_idx].tolist())
+                        self.sampled.append(self._last_Xsample[new_idx])
 
-                return self._last_X[idx].tolist()
+                return [self._last_Xsample[i] for i in idx]
             else:
                 raise ValueError(
                     f"'{strategy}' is not a valid multi-point acquisition strategy!"
@@ -1098,6 +1100,7 @@ class Optimizer(object):
 
                 # cache these values in case the strategy of ask is one-shot
                 self._last_X = Xsample_transformed
+                self._last_Xsample = Xsample
                 self._last_values = values
 
                 # Find the minimum of the acquisition function by randomly
